@@ -24,19 +24,6 @@ Lemma c02_guard_join : forall c o,
   c02_guard c o = true.
 Proof. intros c o H1 H2 H3 H4 H5 H6 H7 H8 H9. unfold c02_guard. rewrite H1, H2, H3, H4, H5, H6, H7, H8, H9. reflexivity. Qed.
 
-Lemma ap_split : forall a b o,
-  (has_assert a || has_assert b) && numeric_like o = false ->
-  assert_promotion a o = false /\ assert_promotion b o = false.
-Proof.
-  intros a b o H. unfold assert_promotion.
-  destruct (numeric_like o); [|rewrite !andb_false_r; tauto].
-  rewrite andb_true_r in H. apply orb_false_iff in H. destruct H as [-> ->]. tauto.
-Qed.
-
-Lemma sps_or : forall a b o, sequence_pattern_str a o || sequence_pattern_str b o = false ->
-  sequence_pattern_str a o = false /\ sequence_pattern_str b o = false.
-Proof. intros a b o H. apply orb_false_iff in H. exact H. Qed.
-
 Lemma sps_split : forall a b o,
   (has_seqis_false a || has_seqis_false b) && sub_art (class_of o) CStr = false ->
   sequence_pattern_str a o = false /\ sequence_pattern_str b o = false.
@@ -288,30 +275,29 @@ Proof.
     + apply asound_and.
       * apply (asound_weaken _ (P a true)); [|exact IHa1].
         intros o [Hh Hg]. guard_parts Hg. simpl in Hh, Hok, Hpn.
-        apply andb_true_iff in Hok. apply orb_false_iff in Hpn. apply sps_split in Hss. apply ap_split in Hap. simpl in Hgp. apply orb_false_iff in Hgp.
+        apply andb_true_iff in Hok. apply orb_false_iff in Hpn. apply sps_split in Hss. simpl in Hap. apply orb_false_iff in Hap. simpl in Hgp. apply orb_false_iff in Hgp.
         destruct (holds a o) as [[|]|] eqn:Ea; try discriminate.
         split; [exact Ea|apply c02_guard_join; tauto].
       * apply (asound_weaken _ (P b true)); [|exact IHb1].
         intros o [Hh Hg]. guard_parts Hg. simpl in Hh, Hok, Hpn.
-        apply andb_true_iff in Hok. apply orb_false_iff in Hpn. apply sps_split in Hss. apply ap_split in Hap. simpl in Hgp. apply orb_false_iff in Hgp.
+        apply andb_true_iff in Hok. apply orb_false_iff in Hpn. apply sps_split in Hss. simpl in Hap. apply orb_false_iff in Hap. simpl in Hgp. apply orb_false_iff in Hgp.
         destruct (holds a o) as [[|]|]; try discriminate.
         split; [exact Hh|apply c02_guard_join; tauto].
     + apply (asound_weaken _ (fun o => P a false o \/ P b false o)); [|apply asound_or; assumption].
       intros o [Hh Hg]. guard_parts Hg. simpl in Hh, Hok, Hpn.
-      apply andb_true_iff in Hok. apply orb_false_iff in Hpn. apply sps_split in Hss. apply ap_split in Hap. simpl in Hgp. apply orb_false_iff in Hgp.
+      apply andb_true_iff in Hok. apply orb_false_iff in Hpn. apply sps_split in Hss. simpl in Hap. apply orb_false_iff in Hap. simpl in Hgp. apply orb_false_iff in Hgp.
       destruct (holds a o) as [[|]|] eqn:Ea; try discriminate.
       * right. split; [exact Hh|apply c02_guard_join; tauto].
       * left. split; [exact Ea|apply c02_guard_join; tauto].
   - (* assert_is_instance *)
     split; apply asound_leaf.
     + weaken (isinstance_pos_sound c1). guard_parts Hg. simpl in Hh. injection Hh as Hh'.
-      unfold assert_promotion in Hap. simpl in Hap. split; [exact Hh'|]. repeat split; assumption.
+      split; [exact Hh'|]. repeat split; assumption.
     + weaken (isinstance_neg_sound c1). guard_parts Hg. simpl in Hh. injection Hh as Hh'.
-      unfold assert_promotion in Hap. simpl in Hap. split; [exact Hh'|]. repeat split; assumption.
+      simpl in Hap. rewrite Hh' in Hap. simpl in Hap. split; assumption.
   - (* assert_is *)
     split; apply asound_leaf.
-    + weaken (isvalue_pos_sound l1). guard_parts Hg. simpl in Hh. injection Hh as Hh'.
-      unfold assert_promotion in Hap. simpl in Hap. split; [apply obj_eqb_eq; exact Hh'|]. repeat split; assumption.
+    + weaken (isvalue_pos_sound l1). simpl in Hh. injection Hh as Hh'. apply obj_eqb_eq. exact Hh'.
     + weaken (isvalue_neg_sound l1). simpl in Hh. injection Hh as Hh'. exact Hh'.
   - (* hasattr *)
     split; apply asound_leaf; apply addannot_sound.
@@ -326,17 +312,17 @@ Proof.
     + apply asound_and.
       * apply (asound_weaken _ (P b true)); [|exact IHb1].
         intros o [Hh Hg]. guard_parts Hg. simpl in Hh, Hok, Hpn.
-        apply andb_true_iff in Hok. apply orb_false_iff in Hpn. apply sps_split in Hss. apply ap_split in Hap. simpl in Hgp. apply orb_false_iff in Hgp.
+        apply andb_true_iff in Hok. apply orb_false_iff in Hpn. apply sps_split in Hss. simpl in Hap. apply orb_false_iff in Hap. simpl in Hgp. apply orb_false_iff in Hgp.
         destruct (holds a o) as [[|]|]; try discriminate.
         split; [exact Hh|apply c02_guard_join; tauto].
       * apply (asound_weaken _ (P a true)); [|exact IHa1].
         intros o [Hh Hg]. guard_parts Hg. simpl in Hh, Hok, Hpn.
-        apply andb_true_iff in Hok. apply orb_false_iff in Hpn. apply sps_split in Hss. apply ap_split in Hap. simpl in Hgp. apply orb_false_iff in Hgp.
+        apply andb_true_iff in Hok. apply orb_false_iff in Hpn. apply sps_split in Hss. simpl in Hap. apply orb_false_iff in Hap. simpl in Hgp. apply orb_false_iff in Hgp.
         destruct (holds a o) as [[|]|] eqn:Ea; try discriminate.
         split; [exact Ea|apply c02_guard_join; tauto].
     + apply (asound_weaken _ (fun o => P b false o \/ P a false o)); [|apply asound_or; assumption].
       intros o [Hh Hg]. guard_parts Hg. simpl in Hh, Hok, Hpn.
-      apply andb_true_iff in Hok. apply orb_false_iff in Hpn. apply sps_split in Hss. apply ap_split in Hap. simpl in Hgp. apply orb_false_iff in Hgp.
+      apply andb_true_iff in Hok. apply orb_false_iff in Hpn. apply sps_split in Hss. simpl in Hap. apply orb_false_iff in Hap. simpl in Hgp. apply orb_false_iff in Hgp.
       destruct (holds a o) as [[|]|] eqn:Ea; try discriminate.
       * left. split; [exact Hh|apply c02_guard_join; tauto].
       * right. split; [exact Ea|apply c02_guard_join; tauto].
@@ -344,19 +330,19 @@ Proof.
     destruct IHa as [IHa1 IHa2]. destruct IHb as [IHb1 IHb2]. split.
     + apply (asound_weaken _ (fun o => P a true o \/ P b true o)); [|apply asound_or; assumption].
       intros o [Hh Hg]. guard_parts Hg. simpl in Hh, Hok, Hpn.
-      apply andb_true_iff in Hok. apply orb_false_iff in Hpn. apply sps_split in Hss. apply ap_split in Hap. simpl in Hgp. apply orb_false_iff in Hgp.
+      apply andb_true_iff in Hok. apply orb_false_iff in Hpn. apply sps_split in Hss. simpl in Hap. apply orb_false_iff in Hap. simpl in Hgp. apply orb_false_iff in Hgp.
       destruct (holds a o) as [[|]|] eqn:Ea; try discriminate.
       * left. split; [exact Ea|apply c02_guard_join; tauto].
       * right. split; [exact Hh|apply c02_guard_join; tauto].
     + apply asound_and.
       * apply (asound_weaken _ (P a false)); [|exact IHa2].
         intros o [Hh Hg]. guard_parts Hg. simpl in Hh, Hok, Hpn.
-        apply andb_true_iff in Hok. apply orb_false_iff in Hpn. apply sps_split in Hss. apply ap_split in Hap. simpl in Hgp. apply orb_false_iff in Hgp.
+        apply andb_true_iff in Hok. apply orb_false_iff in Hpn. apply sps_split in Hss. simpl in Hap. apply orb_false_iff in Hap. simpl in Hgp. apply orb_false_iff in Hgp.
         destruct (holds a o) as [[|]|] eqn:Ea; try discriminate.
         split; [exact Ea|apply c02_guard_join; tauto].
       * apply (asound_weaken _ (P b false)); [|exact IHb2].
         intros o [Hh Hg]. guard_parts Hg. simpl in Hh, Hok, Hpn.
-        apply andb_true_iff in Hok. apply orb_false_iff in Hpn. apply sps_split in Hss. apply ap_split in Hap. simpl in Hgp. apply orb_false_iff in Hgp.
+        apply andb_true_iff in Hok. apply orb_false_iff in Hpn. apply sps_split in Hss. simpl in Hap. apply orb_false_iff in Hap. simpl in Hgp. apply orb_false_iff in Hgp.
         destruct (holds a o) as [[|]|]; try discriminate.
         split; [exact Hh|apply c02_guard_join; tauto].
 Qed.
@@ -448,9 +434,17 @@ Lemma assert_promotion_refuted :
   exists V c pol o, wf_obj o = true /\ cond_ok c o = true /\ member o V = true /\ holds c o = Some pol /\
     assert_promotion c o = true /\ member o (narrow V c pol) = false.
 Proof.
-  exists [plain (VTyped CFloat)], (CAssertInst CInt), true, (OInt 1).
+  exists [plain (VTyped CFloat)], (CAssertInst CFloat), false, (OInt 1).
   vm_compute. repeat split; reflexivity.
 Qed.
+
+(* the repaired positive branch: x: float, assert_is_instance(x, int) gives int and keeps 1 *)
+Example assert_promotion_repaired :
+  narrow [plain (VTyped CFloat)] (CAssertInst CInt) true = [plain (VTyped CInt)] /\
+  c02_guard (CAssertInst CInt) (OInt 1) = true /\ holds (CAssertInst CInt) (OInt 1) = Some true /\
+  narrow [plain (VTyped CFloat)] (CAssertIs (OBool true)) true = [plain (VKnown (OBool true))] /\
+  narrow [plain (VSub CFloat)] (CAssertIs (OClass CInt)) true = [plain (VKnown (OClass CInt))].
+Proof. vm_compute. repeat split; reflexivity. Qed.
 
 Lemma generic_pattern_negative_refuted :
   exists V c pol o, wf_obj o = true /\ cond_ok c o = true /\ member o V = true /\ holds c o = Some pol /\
